@@ -118,6 +118,9 @@ func (s *OAEPSession) SetParameter(xB []byte, ownerKey *rsa.PrivateKey) (err err
 	if ownerKey == nil {
 		return fmt.Errorf("owner key must be an in-memory RSA private key (i.e. not a TPM)")
 	}
+	if len(s.xA) == 0 || len(s.SEK) > 0 {
+		return fmt.Errorf("key exchange parameter was not generated or the exchange was already completed")
+	}
 
 	// Decrypt xB
 	s.xB, err = rsa.DecryptOAEP(sha256.New(), nil, ownerKey, xB, nil)
